@@ -47,3 +47,18 @@ package flight12
 //@ ensures server-random-is-the-states: called("Random.Populate") ==> argAs("Random.Populate", 0, &state.Common.LocalRandom) == &state.Common.LocalRandom
 //@ ensures draw-failure-aborts: called("Random.Populate") && retErr("Random.Populate", 0) != nil ==> result2 != nil
 //@ end
+
+// "... and then each verifies the other's Finished" (RFC 5246 7.3, figure 2): in the abbreviated handshake the server
+// sends its Finished first (flight 4b) and must still receive and verify the client's Finished (flight 5b); so
+// flight 4b is never a flight after whose transmission the handshake is complete. The only flights that end a
+// handshake by being sent are the server's flight 6 (full handshake) and the client's flight 5b (abbreviated);
+// the only flights that wait for the peer's last flight are the client's 5 and the server's 4b.
+//@ func Flight.IsLastSendFlight
+//@ ensures server-still-verifies-client-finished-after-4b: f == Flight4b ==> !result
+//@ ensures only-the-closing-flights: result ==> f == Flight6 || f == Flight5b
+//@ ensures closing-flights-end-the-handshake: f == Flight6 || f == Flight5b ==> result
+//@ end
+
+//@ func Flight.IsLastRecvFlight
+//@ ensures waits-for-peer-finished: result == (f == Flight5 || f == Flight4b)
+//@ end
